@@ -266,8 +266,9 @@ def write_ndjson(path, rows):
             f.write(json.dumps(r, separators=(",", ":")) + "\n")
 
 
-def load_known():
-    p = os.path.join(ROOT, "known_findings.json")
+def load_known(pid):
+    """known_findings/<pid>.json: {"findings": [{"id", "deviation", "what", "witness"}], "fixed": ["fixed: property=.. <commit> .."]}"""
+    p = os.path.join(ROOT, "known_findings", pid + ".json")
     if not os.path.exists(p):
         return {"findings": [], "fixed": []}
     with open(p) as f:
@@ -296,9 +297,10 @@ class Check:
         shutil.rmtree(self.work, ignore_errors=True)
         os.makedirs(self.work, exist_ok=True)
         self.replay_dir = os.path.join(ROOT, "replays", pid)
+        shutil.rmtree(self.replay_dir, ignore_errors=True)
         self.violations = []
         self.known_seen = {}
-        self.known = [k for k in load_known()["findings"] if k["property"] == pid]
+        self.known = load_known(pid)["findings"]
         self.cov = {"evaluations": 0, "distinct_nontrivial": 0, "rule": "", "samples": [],
                     "states": 0, "transitions": 0, "traces_validated_against_impl": 0,
                     "exhaustive": False, "model_drift": 0, "known_findings": [], "tlc_runs": []}
